@@ -46,6 +46,48 @@ struct Mk {
   static int val(const T &e) { return vf::El<T>::val(e); }
 };
 
+/// trivially copyable element of S bytes (S = 3, 6: sizes that neither divide nor exceed a pointer); every byte carries
+/// the value so that a partially copied or overlapped element reads back differently
+template <int S>
+struct Blob {
+  unsigned char b[S];
+  bool operator==(const Blob &o) const { return std::memcmp(b, o.b, S) == 0; }
+  bool operator<(const Blob &o) const { return b[0] < o.b[0]; }
+};
+namespace vf {
+template <int S>
+struct El<Blob<S> > {
+  static const bool tracked = false;
+  static Blob<S> make(int v) {
+    Blob<S> r;
+    for (int i = 0; i < S; ++i) r.b[i] = (unsigned char)(v + 7 * i);
+    return r;
+  }
+  static int val(const Blob<S> &e) {
+    for (int i = 1; i < S; ++i)
+      if (e.b[i] != (unsigned char)(e.b[0] + 7 * i)) return -1000 - i;  // torn element
+    return e.b[0];
+  }
+};
+}  // namespace vf
+
+/// the container under test lives between guard bytes: what a configuration writes outside its own object is observed
+template <class C>
+struct Guarded {
+  unsigned char g0[32];
+  C c;
+  unsigned char g1[32];
+  Guarded() {
+    std::memset(g0, 0xA5, sizeof g0);
+    std::memset(g1, 0xA5, sizeof g1);
+  }
+  long damaged() const {
+    long n = 0;
+    for (size_t i = 0; i < sizeof g0; ++i) n += (g0[i] != 0xA5) + (g1[i] != 0xA5);
+    return n;
+  }
+};
+
 // ---- vectors ---------------------------------------------------------------------------------------------------------
 template <class V>
 struct VecOps {
@@ -273,11 +315,14 @@ static void enumerate_type(const char *cname, int depth) {
       g_line.clear();
       bool enabled = true;
       {
-        C c;
+        Guarded<C> gc;
+        C &c = gc.c;
         int ctr = 0;
+        obs((long)sizeof(C));  // the object layout is part of what a program observes
         for (size_t x = 0; x < seq.size() && enabled; ++x) enabled = Ops::apply(c, alpha[seq[x]], ctr);
         if (enabled) {
           obs(vf::El<typename C::value_type>::tracked ? (long)(vf::L().live() - Ops::live_expected(c)) : 0);
+          obs(gc.damaged());
         }
       }
       if (enabled) {
@@ -345,6 +390,14 @@ int main(int argc, char **argv) {
   enumerate_type<V4, VecOps<V4> >("fixedcapacityvector_NTR_3", depth);
   enumerate_type<V5, VecOps<V5> >("vector_NTR_stdalloc_i16", depth);
   enumerate_type<V6, VecOps<V6> >("smallvector_NTR_2", depth);
+  // elements smaller than a pointer that do not divide it: the number of elements overlaid on the pointer is computed
+  // by standard-dependent code
+  typedef amc::SmallVector<Blob<3>, 3> V7;
+  typedef amc::SmallVector<Blob<6>, 2, amc::allocator<Blob<6> >, uint8_t> V8;
+  typedef amc::SmallVector<Blob<3>, 5, std::allocator<Blob<3> >, uint16_t> V9;
+  enumerate_type<V7, VecOps<V7> >("smallvector_blob3_3", depth);
+  enumerate_type<V8, VecOps<V8> >("smallvector_blob6_2_u8", depth);
+  enumerate_type<V9, VecOps<V9> >("smallvector_blob3_5_stdalloc_u16", depth);
   typedef amc::FlatSet<int> S1;
   typedef amc::FlatSet<vf::TR, std::greater<vf::TR>, amc::allocator<vf::TR>, amc::SmallVector<vf::TR, 2> > S2;
   typedef amc::FlatSet<vf::NTR> S3;
